@@ -257,6 +257,22 @@ fn run_family(rep: &mut Report, fam: &str, thorough: bool, only: Option<&Value>)
                 }
             }
         }
+        "bytes" => {
+            // Blocks whose input is raw bytes (any value is legal): every
+            // sequence up to 4 (5) over the extremes and the mid-scale codes.
+            let alpha = [0u8, 1, 126, 127, 128, 254, 255];
+            let mut all = seqs(&alpha, if thorough { 5 } else { 4 });
+            if let Some(o) = only {
+                all = vec![o["bytes"].as_array().unwrap().iter().map(|x| x.as_u64().unwrap() as u8).collect()];
+            }
+            for b in all {
+                let d = json!({"bytes": b});
+                case(rep, "RtlSdrDecode", d.clone(), one_in(b.clone(), vec![], |r| {
+                    let (blk, o) = RtlSdrDecode::new(r);
+                    (bx(blk), o)
+                }));
+            }
+        }
         "floats" => {
             let alpha = [f32::NAN, f32::INFINITY, f32::NEG_INFINITY, 0.0, -0.0, f32::MIN_POSITIVE / 2.0, f32::MAX, f32::MIN, 1.0];
             let mut all = seqs(&alpha, if thorough { 4 } else { 3 });
@@ -436,7 +452,7 @@ fn run_family(rep: &mut Report, fam: &str, thorough: bool, only: Option<&Value>)
     }
 }
 
-pub const FAMILIES: [&str; 7] = ["bursts", "bits", "floats", "packets", "au", "parse", "sigmf"];
+pub const FAMILIES: [&str; 8] = ["bursts", "bits", "bytes", "floats", "packets", "au", "parse", "sigmf"];
 
 fn tmpdir() -> std::path::PathBuf {
     let d = std::env::temp_dir().join(format!("verif-crashx-{}", std::process::id()));
@@ -527,6 +543,12 @@ fn sigmf_family(rep: &mut Report, thorough: bool, only: Option<&Value>) {
             v["global"][key] = val;
             metas.push((format!("global.{key} = {what}"), v.to_string()));
         }
+    }
+    // Datatype strings: short, truncated, not ASCII.
+    for dt in ["c", "le", "ri", "ri32", "ri32_", "_le", "cf3\u{20ac}2", "r\u{e9}le", "\u{1f4e1}", "ri32_le ", "RI32_LE", "ri32_be", "ru8", "ci16_le"] {
+        let mut v = gv.clone();
+        v["global"]["core:datatype"] = json!(dt);
+        metas.push((format!("datatype {dt:?}"), v.to_string()));
     }
     for (what, val) in [("huge", json!(18446744073709551615u64)), ("negative", json!(-5)), ("float", json!(1.5)), ("string", json!("0"))] {
         let mut v = gv.clone();
